@@ -125,6 +125,36 @@ def rewrite (repaired : Bool) (apiEp : List Char) (host : List Char) (u : Url) :
       else { u with path := trimSuffix (pre ++ u.path) ['/'] }
   else u
 
+
+/-! ### host tests, as data (regenerated from the Go sources by the T1 extractor) -/
+
+/-- The shape of a host test in hostrouting.go / virtualhostbucketaddressing.go. `ep` names the
+endpoint parameter ("api" / "website"). `other` = a source shape the extractor does not know. -/
+inductive HostExpr where
+  | eq (ep : String)              -- host == <ep>
+  | ne (ep : String)              -- host != <ep>
+  | hasSuffixDot (ep : String)    -- strings.HasSuffix(host, "." + <ep>)
+  | hasPrefixDot (ep : String)    -- strings.HasPrefix(host, "." + <ep>)
+  | containsDot (ep : String)     -- strings.Contains(host, "." + <ep>)
+  | or (a b : HostExpr)
+  | and (a b : HostExpr)
+  | other (src : String)
+  deriving Repr, DecidableEq
+
+/-- What a host test computes; `eps` resolves the endpoint names. `other` is never true. -/
+def HostExpr.eval (eps : String → List Char) (h : List Char) : HostExpr → Bool
+  | .eq ep => h == eps ep
+  | .ne ep => h != eps ep
+  | .hasSuffixDot ep => ('.' :: eps ep).isSuffixOf h
+  | .hasPrefixDot ep => ('.' :: eps ep).isPrefixOf h
+  | .containsDot ep => (List.range (h.length + 1)).any fun i => ('.' :: eps ep).isPrefixOf (h.drop i)
+  | .or a b => a.eval eps h || b.eval eps h
+  | .and a b => a.eval eps h && b.eval eps h
+  | .other _ => false
+
+/-- Is the (port-stripped) host an API host? — the test of `MakeHostnameRoutingHandler`. -/
+def isApiHost (apiEp h : List Char) : Bool := h == apiEp || (dotted apiEp).isSuffixOf h
+
 inductive Family where
   | api                               -- the S3 API mux (after `rewrite`)
   | website (bucket : List Char)      -- <bucket>.<website endpoint>
@@ -134,7 +164,7 @@ inductive Family where
 /-- `MakeHostnameRoutingHandler` + the fallback handler of SetupServer. -/
 def route (apiEp webEp host : List Char) : Family :=
   let h := stripPort host
-  if h == apiEp || (dotted apiEp).isSuffixOf h then .api
+  if isApiHost apiEp h then .api
   else if (dotted webEp).isSuffixOf h && !(trimSuffix h (dotted webEp)).isEmpty then
     .website (trimSuffix h (dotted webEp))
   else .custom h
